@@ -266,10 +266,24 @@ def fnInfo (key : Ptr) : J :=
   .obj [("path".toList, .str key), ("type".toList, .str "function".toList)]
 
 /-- What the harness's callable returns (opaque to every theorem). -/
+def Fn.echo (f : Fn) (payload : J) : J :=
+  .obj [("body".toList, payload), ("called".toList, .num (toString f.tag))]
+
+def J.isNull : J → Bool
+  | .null => true
+  | _ => false
+
+/-- Harness convention for `fail`: below 10^6 = `Err((code, _))`; 1000001..3 = the callable panics (what
+the request then answers is not specified by the property: `execution c`, printed as one neutral class);
+2000000 = slow, 3000000 = re-entrant (both answer like an echoing callable; the re-entrant callable's own
+nested registry calls appear as separate op lines).  The special kinds act on a non-null body only. -/
 def Fn.ret (f : Fn) (payload : J) : Res :=
   match f.fail with
-  | some c => .error (.execution c)
-  | none => .ok (.obj [("body".toList, payload), ("called".toList, .num (toString f.tag))])
+  | some c =>
+    if c < 1000000 then .error (.execution c)
+    else if payload.isNull ∨ c ≥ 2000000 then .ok (f.echo payload)
+    else .error (.execution c)
+  | none => .ok (f.echo payload)
 
 /-- Invoke a callable: it is called once with the payload (logged), its result is passed on. -/
 def Reg.call (reg : Reg) (f : Fn) (payload : J) : Reg × Res :=
